@@ -335,6 +335,11 @@ def cases(tier, seed):
     for nm in ("constraints-not-shared", "support-before-substitution",
                "zero-d-optics", "several-constraints"):
         out.append({"id": "misc:" + nm, "kind": "misc", "what": nm})
+    # one model object evaluated against several data sets in every order
+    for mk in MODEL_KINDS:
+        out.append({"id": "misc:one-model-several-data:" + mk,
+                    "kind": "misc", "what": "several-data", "model": mk,
+                    "tier": tier})
     # pixels=k path under every scripted selection
     shapes = [(2, 2)] if tier == "quick" else [(2, 2), (2, 3)]
     for shape in shapes:
@@ -1184,8 +1189,101 @@ def _run_pixels(case, ck):
     return digest(*acc)
 
 
+MODEL_KINDS = ["alpha-no-noise", "alpha-own-noise", "exact-no-noise",
+               "alpha-no-optics"]
+
+
+def _run_several_data(case, ck):
+    """one model object, data sets that differ in noise level, values, shape,
+    pixel size and wavelength, every sequence of <= 3 of them: each value is
+    the Gaussian log-density of THAT data set at the applicable noise level
+    (the model's own if it has one, else the data's), whatever was evaluated
+    before"""
+    import itertools
+    import warnings
+    from holopy.inference import AlphaModel, ExactModel
+    from holopy.core.prior import Uniform
+    from holopy.core.metadata import update_metadata, detector_grid
+    from holopy.scattering import Sphere, Mie, calc_holo
+    kind = case["model"]
+    c0 = (0.17, 0.11, 5.0)
+    truth = Sphere(n=1.59, r=0.5, center=c0)
+
+    def dataset(shape, spacing, wl, noise, bump):
+        det = update_metadata(detector_grid(shape, spacing),
+                              medium_index=NMED, illum_wavelen=wl,
+                              illum_polarization=POL, noise_sd=noise)
+        d = calc_holo(det, truth, theory=Mie(), scaling=0.75)
+        i = np.arange(d.size).reshape(d.shape)
+        return d + bump * ((i % 3) - 1.0)
+    DATA = {"A": dataset((4, 4), 0.1, WL, 0.05, 0.01),
+            "B": dataset((4, 4), 0.1, WL, 0.2, 0.03),
+            "C": dataset((5, 3), 0.15, WL, 0.01, 0.002),
+            "D": dataset((4, 4), 0.1, WL * 0.8, 0.1, 0.01)}
+
+    def model():
+        sph = Sphere(n=1.59, r=Uniform(0.3, 0.8), center=c0)
+        optics = {} if kind == "alpha-no-optics" else dict(
+            medium_index=NMED, illum_polarization=POL)
+        if kind == "alpha-own-noise":
+            return AlphaModel(sph, alpha=0.7, noise_sd=0.07, theory=Mie(),
+                              **optics)
+        if kind == "exact-no-noise":
+            return ExactModel(sph, calc_holo, theory=Mie(), **optics)
+        return AlphaModel(sph, alpha=0.7, theory=Mie(), **optics)
+
+    def expected(name, r):
+        d = DATA[name]
+        det = update_metadata(detector_grid(d.shape[1:], float(
+            d.x[1] - d.x[0]) if len(d.x) > 1 else 0.1))
+        F = calc_holo(d, Sphere(n=1.59, r=r, center=c0), NMED,
+                      d.attrs["illum_wavelen"], POL, theory=Mie(),
+                      scaling=1.0 if kind == "exact-no-noise" else 0.7)
+        sd = 0.07 if kind == "alpha-own-noise" else float(d.attrs["noise_sd"])
+        return gauss_loglike(F, d, sd)
+    acc = []
+    names = sorted(DATA)
+    depth = 3
+    with warnings.catch_warnings():
+        warnings.simplefilter("ignore")
+        want = {(nm, r): expected(nm, r) for nm in names for r in (0.45, 0.5)}
+        lp = {r: model().lnprior([r]) for r in (0.45, 0.5)}
+        for seq in itertools.chain.from_iterable(
+                itertools.product(names, repeat=L)
+                for L in range(1, depth + 1)):
+            m = model()
+            for k, nm in enumerate(seq):
+                r = 0.45 if k % 2 == 0 else 0.5
+                w, scale = want[(nm, r)]
+                try:
+                    ll = float(m.lnlike([r], DATA[nm]))
+                    lpost = float(m.lnposterior([r], DATA[nm]))
+                    ck.trans += 2
+                except Exception as e:          # noqa
+                    ck.true("lnlike-formula:several-data", False, "%s, data "
+                            "sets %s, step %d raised %s: %s" %
+                            (kind, ">".join(seq), k + 1, type(e).__name__, e))
+                    break
+                e1 = abs(ll - w) / scale
+                ck.metric("several-data", e1)
+                ck.true("lnlike-formula:several-data", e1 <= 1e-9,
+                        "%s evaluated on data sets %s: at step %d (data %s, "
+                        "noise %r) lnlike is %r, the Gaussian log-density "
+                        "is %r" % (kind, ">".join(seq), k + 1, nm,
+                                   DATA[nm].attrs["noise_sd"], ll, w))
+                ck.true("posterior-sum:several-data",
+                        abs(lpost - (lp[r] + ll)) <= 1e-9 * scale,
+                        "%s on %s step %d: lnposterior %r != lnprior %r + "
+                        "lnlike %r" % (kind, ">".join(seq), k + 1, lpost,
+                                       lp[r], ll))
+            acc.append(repr(round(w, 6)))
+    return digest(acc)
+
+
 def _run_misc(case, ck):
     import warnings
+    if case["what"] == "several-data":
+        return _run_several_data(case, ck)
     from holopy.inference import AlphaModel
     from holopy.inference.model import LimitOverlaps
     from holopy.core.prior import Uniform
